@@ -1324,6 +1324,9 @@ func init() {
 			rpc := rpcByName("WriteAuthorizationModel")
 			first := oneStep(rpc, req, nil, "WriteAuthorizationModel "+note)
 			first.heavy = true
+			if strings.Contains(note, "diamond chain n=24") || strings.Contains(note, "computed chain n=1500") {
+				first.limit = 7 * time.Second // the witnesses of model_validation_hascycle_cost: minutes of CPU
+			}
 			first.after = func(resp proto.Message, env *caseEnv) {
 				env.modelID = resp.(*openfgav1.WriteAuthorizationModelResponse).GetAuthorizationModelId()
 			}
@@ -1430,5 +1433,5 @@ func init() {
 	}
 	generators = append(generators, directGenerators()...)
 	// fault injection below the handlers (fault.go); the child handles it outside build()
-	generators = append(generators, &generator{name: "fault", variants: nFaultVariants(), weight: 7})
+	generators = append(generators, &generator{name: "fault", variants: nFaultVariants(), weight: 3})
 }
